@@ -158,6 +158,69 @@ def inner_doc(doc, depth):
     return cur
 
 
+# --------------------------------------------------------------------------- ownership: what the application does with the results
+#
+# DIMENSION the instances a load returns belong to the caller.  Between the loads of a case the application keeps every result it got and
+# writes into the CatchAll mapping of some of them (annotates it, overwrites a captured value, removes a pair, empties it).  The property
+# is about every single load: the CatchAll field of a result holds exactly the unknown pairs of ITS document -- whatever was loaded
+# before and whatever happened to earlier results.  So (1) the mapping of a result is never the very object an earlier result of the case
+# holds (same view or another view of the class, complete document or document with unknown keys), (2) every later load is judged by the
+# ordinary check, and (3) at the end of the case every kept result still holds what it held when it was judged plus the application's
+# own writes, nothing that leaked in from another load.
+
+OWN_NOTES = ['reviewed_by', 'note', 'seen', '__mark__', 'zzz', 'n', 'extra_key', 'tag']
+
+
+class Ownership:
+    def __init__(self, orng):
+        self.rng = orng
+        self.kept = []          # (label, instance, mapping, expected items): instances are kept alive, so `is` is meaningful
+
+    def took(self, ctx, kind, case, label, out, depth, src, key=None, keep_intact=False):
+        """the application receives the (already judged) outcome of a load; `keep_intact`: it only holds on to it (the result that is
+        compared with the Lean model afterwards)"""
+        if out[0] != 'ok':
+            return
+        try:
+            inst = dig(out[1], depth)
+            m = inst.extras_fld
+        except AttributeError:
+            return
+        if not isinstance(m, dict):
+            return
+        for lab2, _i2, m2, _e2 in self.kept:
+            if m2 is m:
+                ctx.fail(kind + ':ownership', dict(case, ownership=[k[0] for k in self.kept] + [label]),
+                         f'{label}: the CatchAll mapping of this result is the very object held by the result of an earlier load ({lab2}): '
+                         f'two instances share one mapping, a write to one shows in the other', key=key, detail=src)
+                return
+        rng = self.rng
+        act = rng.choice(['write', 'write', 'write', 'write2', 'overwrite', 'pop', 'clear', 'none'])
+        if keep_intact:
+            act = 'none'
+        if act in ('write', 'write2'):
+            for kk in rng.sample(OWN_NOTES, 1 if act == 'write' else 2):
+                m[kk] = rng.choice(['kim', 5, None, [1], {'a': 1}, True])
+        elif act == 'overwrite' and m:
+            m[rng.choice(sorted(m, key=repr))] = 'changed by the application'
+        elif act == 'pop' and m:
+            m.pop(rng.choice(sorted(m, key=repr)))
+        elif act == 'clear':
+            m.clear()
+            m[rng.choice(OWN_NOTES)] = 1
+        self.kept.append((f'{label} [{act}]', inst, m, list(m.items())))
+
+    def settle(self, ctx, kind, case, src, key=None):
+        """end of the case: nothing leaked into (or out of) a result the application holds"""
+        for label, inst, m, want in self.kept:
+            now = getattr(inst, 'extras_fld', None)
+            if now is not m or list(m.items()) != want:
+                ctx.fail(kind + ':ownership', dict(case, ownership=[k[0] for k in self.kept]),
+                         f'{label}: after the later loads of the case the CatchAll field of this result holds {now!r}; it held {dict(want)!r} '
+                         f'(the unknown pairs of its document and the application\'s own writes)'[:800], key=key, detail=src)
+                return
+
+
 REACH_OFFSET = 30_000_000
 
 
@@ -259,16 +322,37 @@ def run_default(ctx: C.Ctx):
                 ctx.count('history:' + '>'.join(hist))
             src = dict(src=built.source)
             outs = None
+            # ---- what the application does with the results between the loads (own generator; CatchAll classes only)
+            orng = random.Random(f'{ctx.prop_id}:{ctx.seed}:ownership:{i}')
+            own = Ownership(orng) if catch and orng.random() < 0.6 else None
+            if own is not None:
+                case['application_writes'] = True
+                ctx.count('ownership')
             for v in views:
                 cls_v = built.root if v['cls'] is None else built.get(v['cls'])
-                base_out_v = load_outcome(lambda: fromdict(cls_v, copy.deepcopy(v['base'])))
-                outs_v = [load_outcome(lambda: fromdict(cls_v, copy.deepcopy(v['doc']))) for _ in range(v['reps'])]
                 case_v = case if v['view'] == 'root' else dict(case, view=v['view'], view_doc=repr(v['doc'])[:500], view_policy=v['policy'],
                                                                step=f'{views.index(v) + 1} of {">".join(hist)}')
-                for rep, out in enumerate(outs_v, 1):
-                    check(ctx, case_v, rep, v['policy'], out, base_out_v, v['U'], v['depth'], target, built, src, has_tag, tag_key, v['doc'])
+                base_out_v = load_outcome(lambda: fromdict(cls_v, copy.deepcopy(v['base'])))
+                if own is None:
+                    outs_v = [load_outcome(lambda: fromdict(cls_v, copy.deepcopy(v['doc']))) for _ in range(v['reps'])]
+                    for rep, out in enumerate(outs_v, 1):
+                        check(ctx, case_v, rep, v['policy'], out, base_out_v, v['U'], v['depth'], target, built, src, has_tag, tag_key, v['doc'])
+                else:
+                    # every outcome is judged right after its load and then handed to the application (see Ownership)
+                    label = f'step {views.index(v) + 1} ({v["view"]} view): '
+                    own.took(ctx, 'unknown:' + policy, case_v, label + 'complete document', base_out_v, v['depth'], src)
+                    outs_v = []
+                    for rep in range(1, v['reps'] + 1):
+                        outs_v.append(load_outcome(lambda: fromdict(cls_v, copy.deepcopy(v['doc']))))
+                        nf = len(ctx.failures)
+                        check(ctx, case_v, rep, v['policy'], outs_v[-1], base_out_v, v['U'], v['depth'], target, built, src, has_tag, tag_key, v['doc'])
+                        if len(ctx.failures) == nf:
+                            own.took(ctx, 'unknown:' + policy, case_v, label + f'load #{rep} with unknown keys {sorted(v["U"])}', outs_v[-1],
+                                     v['depth'], src, keep_intact=v['view'] == 'root' and rep == v['reps'])
                 if v['view'] == 'root':
                     outs = outs_v
+            if own is not None:
+                own.settle(ctx, 'unknown:' + policy, case, src)
             st = model.StdTables()
             st.add_json(d)
             reqs.append({'op': 'load', 'ty': model.enc_ty(ty), 'doc': model.enc_j(d), 'std': st.build()})
@@ -553,14 +637,20 @@ class _Records:
         self.log.setLevel(lvl)
 
 
-def eval_view_v1(ctx, kind, case, cls_v, v, target, built, src, has_tag, tag_key, fkey, dump_between):
+def eval_view_v1(ctx, kind, case, cls_v, v, target, built, src, has_tag, tag_key, fkey, dump_between, own=None, label=''):
     """load the view's complete document, then its document with unknown keys `reps` times (optionally dumping every loaded instance
-    before the next load), and judge every outcome by the policy in force in this view"""
+    before the next load), and judge every outcome by the policy in force in this view.  With `own` (see Ownership) every outcome is
+    judged right after its load and then handed to the application, which may write into its CatchAll mapping before the next load."""
     from dataclass_wizard import fromdict, asdict
     policy, U = v['policy'], v['U']
+
+    def judge(rep, out):
+        check_v1(ctx, kind, case, rep, policy, out, base_out, U, v['depth'], target, built, src, has_tag, tag_key, v['doc'], key=fkey)
     with _Records() as rec:
         base_out = load_outcome(lambda: fromdict(cls_v, copy.deepcopy(v['base'])))
         n_base = len(rec.records)
+        if own is not None:
+            own.took(ctx, kind, case, f'{label}complete document', base_out, v['depth'], src)
         outs = []
         for _ in range(v['reps']):
             before = len(rec.records)
@@ -569,6 +659,12 @@ def eval_view_v1(ctx, kind, case, cls_v, v, target, built, src, has_tag, tag_key
                 warned = len(rec.records) > before
                 if warned != bool(U):
                     ctx.fail(kind, case, f'WARN policy: unknown keys {sorted(U)}, a warning was {"" if warned else "not "}logged', detail=src)
+            if own is not None:
+                nf = len(ctx.failures)
+                judge(len(outs), outs[-1])
+                if len(ctx.failures) == nf:
+                    own.took(ctx, kind, case, f'{label}load #{len(outs)} with unknown keys {sorted(U)}', outs[-1], v['depth'], src,
+                             keep_intact=v['view'] == 'root' and len(outs) == v['reps'])
             if dump_between and outs[-1][0] == 'ok':
                 try:
                     asdict(outs[-1][1])
@@ -576,9 +672,11 @@ def eval_view_v1(ctx, kind, case, cls_v, v, target, built, src, has_tag, tag_key
                     ctx.fail(kind, case, f'to_dict of the loaded instance raised {e!r}'[:600], key=fkey, detail=src)
         if policy == 'warn' and n_base:
             ctx.fail(kind, case, 'WARN policy: a warning was logged for a document without unknown keys', detail=src)
+    if own is not None:
+        return outs
     for rep, out in enumerate(outs, 1):
         nf = len(ctx.failures)
-        check_v1(ctx, kind, case, rep, policy, out, base_out, U, v['depth'], target, built, src, has_tag, tag_key, v['doc'], key=fkey)
+        judge(rep, out)
         if fkey is not None and len(ctx.failures) > nf:
             break          # a known finding: one record per case is enough
     return outs
@@ -698,6 +796,12 @@ def run_v1(ctx: C.Ctx):
                 ctx.count('v1:policy-form:' + form)
             kind = 'unknown:v1:' + policy
             ctx.seen(kind, case, nontrivial=bool(U))
+            # ---- what the application does with the results between the loads (own generator; CatchAll classes only)
+            orng = random.Random(f'{ctx.prop_id}:{ctx.seed}:v1:ownership:{j}')
+            own = Ownership(orng) if catch and fkey is None and orng.random() < 0.6 else None
+            if own is not None:
+                case['application_writes'] = True
+                ctx.count('v1:ownership')
             if len(views) > 1:
                 ctx.count('v1:history:' + '>'.join(hist))
             if aliased:
@@ -742,9 +846,12 @@ def run_v1(ctx: C.Ctx):
                 cls_v = built.root if v['cls'] is None else built.get(v['cls'])
                 case_v = case if v['view'] == 'root' else dict(case, view=v['view'], view_doc=repr(v['doc'])[:500], view_policy=v['policy'],
                                                                step=f'{views.index(v) + 1} of {">".join(hist)}')
-                outs_v = eval_view_v1(ctx, kind, case_v, cls_v, v, target, built, src, has_tag, tag_key, fkey, dump_between)
+                outs_v = eval_view_v1(ctx, kind, case_v, cls_v, v, target, built, src, has_tag, tag_key, fkey, dump_between, own=own,
+                                      label=f'step {views.index(v) + 1} ({v["view"]} view): ')
                 if v['view'] == 'root':
                     outs = outs_v
+            if own is not None:
+                own.settle(ctx, kind, case, src)
             if fkey is None:
                 st = model.StdTables()
                 st.add_json(d)
